@@ -115,7 +115,7 @@ Qed.
 Definition in_range (p : list R) : Prop := exists y, p = [y] /\ r <= y <= x0.
 
 (* no panic, whatever max_iter *)
-Lemma newton_monotone_total dl n :
+Lemma newton_monotone_total_lemma dl n :
   exists res evs, newton_sysjac NRl (mkCfg tl dl n [x0]) F1 J1 = Ok (res, evs).
 Proof.
   unfold newton_sysjac. cbn [tol delta max_iter guess].
@@ -143,7 +143,7 @@ Proof.
 Qed.
 
 (* the iterate sequence is monotone: x_{k+1} <= x_k, all >= r *)
-Lemma newton_monotone_iterates k pk : niter step k [x0] = Ok pk ->
+Lemma newton_monotone_iterates_lemma k pk : niter step k [x0] = Ok pk ->
   exists z, pk = [z] /\ r <= z <= x0 /\ niter step (S k) [x0] = Ok [nstep z] /\ r <= nstep z <= z.
 Proof.
   assert (G : forall k p pk, in_range p -> niter step k p = Ok pk ->
@@ -165,7 +165,7 @@ Proof.
 Qed.
 
 (* every Ok answer lies within tol / f'(r) to the right of the root *)
-Lemma newton_monotone_ok_close dl n p evs :
+Lemma newton_monotone_ok_close_lemma dl n p evs :
   newton_sysjac NRl (mkCfg tl dl n [x0]) F1 J1 = Ok (NOk p, evs) ->
   exists x, p = [x] /\ r <= x <= x0 /\ x - r <= tl / f' r.
 Proof.
@@ -186,13 +186,13 @@ Proof.
 Qed.
 
 (* global convergence with an explicit pass count *)
-Lemma newton_monotone_ok dl n : f' x0 * (x0 - r) < INR n * tl ->
+Lemma newton_monotone_ok_lemma dl n : f' x0 * (x0 - r) < INR n * tl ->
   exists x evs, newton_sysjac NRl (mkCfg tl dl n [x0]) F1 J1 = Ok (NOk [x], evs) /\
     r <= x <= x0 /\ x - r <= tl / f' r.
 Proof.
-  intros Hn. destruct (newton_monotone_total dl n) as (res & evs & H).
+  intros Hn. destruct (newton_monotone_total_lemma dl n) as (res & evs & H).
   destruct res as [p|p].
-  - destruct (newton_monotone_ok_close dl n p evs H) as (x & -> & Hx). eauto.
+  - destruct (newton_monotone_ok_close_lemma dl n p evs H) as (x & -> & Hx). eauto.
   - exfalso. unfold newton_sysjac in H. cbn [tol delta max_iter guess] in H.
     apply nloop_spec in H as [(es & x' & Hx & Rn & _)|(k & es & pk & x' & e & Hx & _)]; [|discriminate].
     destruct (mono_run _ _ _ _ Rn x0 eq_refl) as (z & _ & Hz & Hk); [lra|].
